@@ -200,6 +200,8 @@ func (p *Prog) lowerTop(fi *FuncInfo, ct *Contract) (fv *FuncIVL, err error) {
 			}
 		}
 	}
+	f.declare("$acquired", "Bool")
+	l.assign("$acquired", "Bool", tFalse)
 	l.initDeferGuards(fr, fi.Body)
 	// decoder in scope: allocation bound for make()
 	l.setupAllocBound(fi, paramObjs, recvObj)
@@ -241,6 +243,7 @@ func (p *Prog) lowerTop(fi *FuncInfo, ct *Contract) (fv *FuncIVL, err error) {
 			t := l.specTerm(c, nil)
 			props := clauseProps(ct, c)
 			l.assertOb("ensures", c.Label, c.Src, nil, t, props)
+			l.tagLastOb(c.Label, c.Uses...)
 		}
 	}
 	// frame obligations
@@ -726,5 +729,6 @@ func (l *Lowerer) emitEnsures() {
 	for _, c := range l.topEnss {
 		t := l.specTerm(c, env)
 		l.assertOb("ensures", c.Label, c.Src, nil, t, clauseProps(l.topCt, c))
+		l.tagLastOb(c.Label, c.Uses...)
 	}
 }
